@@ -1,6 +1,7 @@
 import SqlObjVerif.Lemmas.Events
 import SqlObjVerif.Lemmas.EventsX
 import SqlObjVerif.Lemmas.EvMainXInit
+import SqlObjVerif.Lemmas.EvChainXModel
 /-!
 # C19 — row events fire exactly once, in order around the database write; listener edits of the
 create / update kwargs are what gets stored; appended post-callbacks run after the operation;
@@ -423,6 +424,51 @@ theorem C19_translated_events_once_in_order_create (f : Nat) (c : Cfg) (s : Stat
   refine ⟨_, _, _, initX_eq f c s kw hnd hn hfresh, fun hok => ⟨(C19_events_once_in_order_create c s kw).1 hok, ?_⟩,
     (C19_events_once_in_order_create c s kw).2⟩
   exact (C19_rewrite_is_stored_create c s kw hok).1
+
+
+/-! ## inheritance chains on the TRANSLATED source
+
+`chainInitX L` (Model/EvChainX.lean) is `Cls_L()` for the class at depth `L` of an inheritance chain: the translated
+`SQLObject.__init__` whose `_create` is the PyInherit translation of `InheritableSQLObject._create` (C15's extractor,
+imported unchanged) run over the PyEv world — it constructs the parent instance by the translated `__init__` of the parent
+class (nested: the thread-local `postponed_calls` exists) and then runs the translated `SQLObject._create` under the parent's
+id.  Interface assumptions: header of Model/EvChainX.lean (`ChainOk`: constructors are called without column keywords and the
+RowCreateSignal listeners leave the kwargs empty, every level has a column and validating defaults). -/
+
+/-- **every RowCreatedSignal after ALL levels' INSERTs, exactly the model's log — for every chain depth `L` and every listener
+    placement, about the translated source.**  The translated outermost constructor returns, the thread-local list is gone,
+    and the log it contributed — each entry tagged with the level whose code produced it — is EXACTLY `Chain.createObj`: the
+    nested RowCreateSignals top-down, the INSERTs root-first each followed by its level's create-callbacks, then (from the
+    single flush in the outermost `finally:`) RowCreatedSignal + callbacks of level 0, 1, …, `L`, each listener of each level
+    once, in connection order.  Hence every RowCreatedSignal of the object comes after the INSERTs of all levels. -/
+theorem C19_translated_created_after_all_levels (fuel : Nat) (cls : Nat → Cfg) (ccfg : Chain.CCfg)
+    (hL : ∀ j, (cls j).listeners = Chain.effective ccfg j) (L : Nat) (hok : ChainOk cls L) (hfuel : L + 1 < fuel)
+    (w : PyEv.World) (hcl : w.c = cls L) (hlv : w.lvl = L) (ho : w.o = newObj) (hpp : w.postponed = none)
+    (hfresh : rowOf? w.rows w.nextId = none) :
+    ∃ w' lg, chainInitX fuel cls L w = .ret w' .none ∧ w'.postponed = none ∧ w'.log = w.log ++ lg
+      ∧ lg.map convT = Chain.createObj ccfg w.nextId L
+      ∧ ∀ pre suf lv lis, lg.map convT = pre ++ Chain.CEntry.ev .created lv lis (some w.nextId) :: suf →
+          ∀ j, j ≤ L → Chain.CEntry.ins j w.nextId ∈ pre := by
+  obtain ⟨w', h1, h2, h3⟩ := chainInitX_run fuel cls L hok hfuel w hcl hlv ho hpp hfresh
+  have heq := chain_log_eq cls ccfg hL w.nextId L
+  refine ⟨w', _, h1, h2, h3, heq, ?_⟩
+  intro pre suf lv lis hsplit j hj
+  rw [heq] at hsplit
+  have hrun : Chain.runCreates ccfg w.nextId [L] = pre ++ Chain.CEntry.ev .created lv lis (some (w.nextId + 0)) :: suf := by
+    simp [Chain.runCreates, hsplit]
+  exact C19_created_after_all_levels ccfg [L] w.nextId 0 (by simp) pre suf lv lis hrun j (by simpa using hj)
+
+/-- non-vacuity: a 3-level chain (an early root listener cloned down, a leaf listener appending a callback) run through the
+    translated constructors gives the hand model's log -/
+example :
+    let ccfg : Chain.CCfg := [[⟨.created, .observe, true⟩, ⟨.create, .post 7, false⟩], [], [⟨.created, .post 1, false⟩]]
+    let cls : Nat → Cfg := fun j => ⟨1, false, [.int 0], Chain.effective ccfg j, true⟩
+    (match chainInitX 5 cls 2 { absW (cls 2) init newObj with lvl := 2 } with
+     | .ret w' _ => some (w'.log.map convT)
+     | _ => none) = some (Chain.createObj ccfg 1 2)
+    ∧ Chain.createObj ccfg 1 2 = [.ev .create 0 1 none, .ins 0 1, .post 7 0 1, .ins 1 1, .ins 2 1, .ev .created 0 0 (some 1), .ev .created 1 0 (some 1),
+         .ev .created 2 0 (some 1), .ev .created 2 1 (some 1), .post 1 2 1] := by
+  decide +kernel
 
 /-! ### concrete runs of the translated `__init__` → `_create` → `set` → `_SO_finishCreate` → `_init` → postponed thunk, and of
 `_SO_setValue` (kernel evaluation of the translated programs: instances of `C19_translated_create_eq_model` /
